@@ -103,7 +103,7 @@ def main():
             dict(name='crashmc', path='nvmc/crashmc.py', serves_properties=['C06'], kind_free_text='strace-recorded write path replayed into a file-system model; every syscall boundary and page-torn write enumerated as a crash point; real SIGKILL conformance'),
             dict(name='boundmc', path='nvmc/boundmc.py', serves_properties=['C07','C09','C13'], kind_free_text='operation-history BFS on real bound objects with scripted GMM seeds'),
             dict(name='envmc', path='nvmc/envmc.py', serves_properties=['C08','C14','C16'], kind_free_text='exhaustive enumeration of scripted random-generator answers driving the real sampling code'),
-            dict(name='enum', path='nvmc/progs.py', serves_properties=['C15','C16'], kind_free_text='bounded-exhaustive declaration programs / float neighbourhoods against a reference interpreter'),
+            dict(name='enum', path='nvmc/props_e.py', serves_properties=['C15','C16'], kind_free_text='bounded-exhaustive declaration programs / float neighbourhoods against a reference interpreter'),
         ],
         checks=checks,
         not_applicable=na,
